@@ -604,7 +604,9 @@ func resClass(e abci.Error) string {
 
 func (o *Obs) Line() string {
 	a := 0
-	if o.AnteRan {
+	if o.AnteDone {
+		a = 2
+	} else if o.AnteRan {
 		a = 1
 	}
 	return fmt.Sprintf("res=%s gw=%d gu=%d ran=a%dm%d hook=%s %s", o.Res, o.GW, o.GU, a, o.MsgsRan, o.Hook, o.Shown)
